@@ -34,7 +34,7 @@ ENGINES = {
                    files=["stream_test.go", "poolsim_test.go"], instrument=dict(GRPCGCP_INSTR_CLOCK, **{"gcp_interceptor.go": ["-yield"]}),
                    kind="fake Streamer/ClientStream event log + gate-directed scenario programs, ordering monitor"),
     "gme": dict(module="grpcgcp", pkg=".", pkgname="grpcgcp", pkgmarker="grpcgcp.", harness="grpcgcp",
-                files=["gme_test.go"], kind="GCPMultiEndpoint over real gRPC and in-process bufconn servers: routing observed at the servers vs model, dial log, ClientConn states, goroutine profile"),
+                files=["gme_test.go"], instrument={"gcp_multiendpoint.go": ["-yield"]}, kind="GCPMultiEndpoint over real gRPC and in-process bufconn servers: routing observed at the servers vs model, dial log, ClientConn states, goroutine profile"),
     "stress": dict(module="grpcgcp", pkg=".", pkgname="grpcgcp", pkgmarker="grpcgcp.", harness="grpcgcp",
                    files=["stress_test.go", "poolsim_test.go"], instrument={"gcp_balancer.go": ["-yield"], "gcp_picker.go": ["-yield"]},
                    kind="concurrent driver: serialized callbacks + many pick/complete goroutines, yield-site schedule perturbation, gates; quiescent invariants"),
@@ -153,7 +153,7 @@ PROPS["C15"] = dict(level="exploration",
     rule="seeded walks of 20 ops (valid reconfigurations of 1-3 named MultiEndpoints over 5 shared endpoints, endpoint outages/recoveries, settle+routed RPCs unary and streaming for no-name/known/unknown contexts); non-trivial = every walk (each performs routed RPC checks and pool-set checks); distinct = hash of the op log",
     assumptions=GME_ASSUME,
     stages=[dict(name="gme", engine="gme", test="TestVerifGME", batches=dict(quick=8, thorough=16), crash_props=["C15", "C16"],
-                 essential={"C15": ["C15.route", "C15.route:no-name", "C15.route:unknown-name", "C15.route:known", "C15.route-stream", "C15.pools", "C15.immediate", "C15.no-redial", "C15.outage", "C15.recovery", "C15.concurrent-updates", "C15.route:removed-name"]},
+                 essential={"C15": ["C15.route", "C15.route:no-name", "C15.route:unknown-name", "C15.route:known", "C15.route-stream", "C15.pools", "C15.immediate", "C15.no-redial", "C15.outage", "C15.recovery", "C15.concurrent-updates", "C15.route:removed-name", "C15.rpcs-during-update"]},
                  timeout=dict(quick=1200, thorough=7200))])
 PROPS["C16"] = dict(level="fault_enumeration",
     rule="enumerated fault kinds {default missing, empty list for an existing ME, empty list for a new ME, dial failure at the 1st/2nd/3rd dial, valid} applied in seeded sequences of 1-4 updates on top of random legitimate changes (Go map order varies per repetition), and failed constructions {dial failure at dial 1/2, default missing, empty list}; non-trivial = every case (each ends with Close() and the leak check); distinct = hash of the op log incl. the dial order actually taken",
